@@ -57,7 +57,9 @@ IGrm(g) ==
                                              action |-> IOpt1(g.prods[i].action),
                                              action_span |-> IF Len(g.prods[i].action_span) = 0 THEN <<>> ELSE P2(g.prods[i].action_span)]],
    startprod |-> g.startprod, startrule |-> g.startrule, eof |-> g.eof, expect |-> Tup(g.expect), expectrr |-> Tup(g.expectrr),
-   implicit_rule |-> g.implicit_rule, programs |-> IOpt1(g.programs)]
+   implicit_rule |-> g.implicit_rule, programs |-> IOpt1(g.programs),
+   parse_param |-> IF Len(g.parse_param) = 0 THEN <<>> ELSE <<Tup(g.parse_param[1]), Tup(g.parse_param[2])>>,
+   parse_generics |-> IOpt1(g.parse_generics)]
 
 Model(e) ==     \* -> [a, errs, loop]
   LET src == Tup(e.src)
